@@ -107,6 +107,7 @@ Inductive exn :=
 | EExists                  (* os.mkdir of an existing directory *)
 | EAssert                  (* assert os.path.exists(base_dir) *)
 | EKey                     (* os.environ.pop(name) without default on an absent variable *)
+| EIsDir                   (* shutil.copy of a directory *)
 | EUnbound                 (* a local variable read before assignment *)
 | ENoNames                 (* model artefact: mkdtemp name supply exhausted *)
 | ECallee (n : nat).       (* raised by the wrapped function *)
@@ -142,10 +143,12 @@ Inductive stmt :=
 | AssertBase                              (* if base_dir is not None: assert os.path.exists(base_dir) *)
 | Mkdtemp                                 (* tmpdir_path = mkdtemp(dir=base_dir) — may fail *)
 | CopyIn (fns : list string)              (* for filename in filenames_to_copy: move/copy — each may fail *)
-| CopyBack (abs : bool) (kept : list string)
+| CopyBack (abs files_only : bool) (kept : list string)
       (* for filename in os.listdir(tmpdir_path): if kept: shutil.copy(SRC, here)   with
          SRC = filename (abs = false: resolved against the CURRENT directory) or
-         SRC = os.path.join(tmpdir_path, filename) (abs = true) *)
+         SRC = os.path.join(tmpdir_path, filename) (abs = true);
+         files_only = the loop skips entries that are not regular files (`if not os.path.isfile(..): continue`);
+         without that guard a DIRECTORY with a kept extension makes shutil.copy raise IsADirectoryError *)
 | Rmtree (v : pvar)                       (* shutil.rmtree(v) *)
 | SaveEnv (vars : list (string * string)) (* prev_vals = [os.getenv(name, None) for ...] *)
 | SetEnv (vars : list (string * string))  (* for env_var in env_vars: os.environ[name] = new_val *)
@@ -160,7 +163,7 @@ Inductive stmt :=
 Definition is_empty_dir (s : state) (p : path) : bool :=
   negb (existsb (belowb p) (dirs s)) && negb (existsb (belowb p) (files s)).
 
-(* utils.py:298-305 — `_mol.in` files are MOVED to <tmp>/mol.in, everything else is copied *)
+(* utils.py work_in_tmp_dir, copy-in loop (l. 299-308) — `_mol.in` files are MOVED to <tmp>/mol.in, everything else is copied *)
 Fixpoint do_copy_in (fns : list string) (tmp : path) (s : state) : outcome * state :=
   match fns with
   | [] => (Ok, s)
@@ -180,7 +183,7 @@ Definition kept_candidates (kept : list string) (tmp : path) (fs : list path) : 
   flat_map (fun q => match child_name tmp q with
                      | Some n => if kept_name kept n then [n] else []
                      | None => [] end) fs.
-(* utils.py:314-317 — src = None: the bare file name is resolved against the CURRENT cwd *)
+(* utils.py work_in_tmp_dir, copy-back loop (l. 316-322) — src = None: the bare file name is resolved against the CURRENT cwd *)
 Definition src_dir (src : option path) (s : state) : path :=
   match src with Some p => p | None => cwd s end.
 Fixpoint do_copy_back (cands : list string) (src : option path) (here : path) (s : state) : outcome * state :=
@@ -242,7 +245,7 @@ Fixpoint exec (t : stmt) (f : frame) (s : state) : outcome * frame * state :=
       with_var f v s (fun p =>
         let '(flt, s1) := pop_fault s in
         if flt then (Raise (EFault FMkdir), f, s1)
-        else if mem_path p (dirs s1) then (Raise EExists, f, s1)
+        else if mem_path p (dirs s1) || mem_path p (files s1) then (Raise EExists, f, s1)   (* FileExistsError: a directory or a regular file is there *)
         else (Ok, f, set_dirs s1 (p :: dirs s1)))
   | Chdir v => with_var f v s (fun p => (Ok, f, set_cwd s p))
   | IfEmpty v body =>
@@ -274,8 +277,11 @@ Fixpoint exec (t : stmt) (f : frame) (s : state) : outcome * frame * state :=
       end
   | CopyIn fns =>
       with_var f VTmp s (fun tmp => let '(o, s1) := do_copy_in fns tmp s in (o, f, s1))
-  | CopyBack abs kept =>
+  | CopyBack abs files_only kept =>
       with_var f VTmp s (fun tmp => with_var f VHere s (fun h =>
+        if negb files_only && existsb (fun q => match child_name tmp q with Some n => kept_name kept n | None => false end) (dirs s)
+        then (Raise EIsDir, f, s)     (* os.listdir order is arbitrary: the directory is met first *)
+        else
         let '(o, s1) := do_copy_back (kept_candidates kept tmp (files s)) (if abs then Some tmp else None) h s in
         (o, f, s1)))
   | Rmtree v =>
